@@ -480,7 +480,11 @@ func cmdRun(args []string) int {
 		for id, v := range s.KnownHits {
 			fmt.Printf("   KNOWN %s via %s model=%v\n", id, v.Label, v.Model)
 		}
-		for _, m := range s.Inconclusive {
+		for k, m := range s.Inconclusive {
+			if k >= 3 {
+				fmt.Printf("   ... %d more inconclusive paths\n", len(s.Inconclusive)-3)
+				break
+			}
 			fmt.Println("   INCONCLUSIVE:", m)
 		}
 		if os.Getenv("VERIF_REPLAY") != "" {
